@@ -1114,7 +1114,9 @@ class Machine:
         # invariants assumed for havoc'd locals must be re-established by the value arriving on the back edge
         for l in havoc:
             if l in fr.locals:
-                self.world.check_invariant(self, st, fr, l, snap.get(l), fr.locals[l])
+                if self.world.check_invariant(self, st, fr, l, snap.get(l), fr.locals[l]) == "rewiden":
+                    # the arriving value has a shape the widened one does not cover yet: join once more
+                    diff.append(l)
         if not diff:
             return Outcome("closed", None, st, "loop at bb%d of %s closed" % (target, fr.body.id))
         if n > 8:
